@@ -5,6 +5,7 @@ import (
 	"math/rand"
 	"strings"
 
+	"github.com/opsidian/parsley/ast/interpreter"
 	"github.com/opsidian/parsley/combinator"
 	"github.com/opsidian/parsley/data"
 	"github.com/opsidian/parsley/examples/json/json"
@@ -361,7 +362,9 @@ func c12exec(j run.Job, a *run.Acc) {
 				env := gram.NewEnvAt(in, bf)
 				gd := gram.NewGuard(env.Base)
 				gd.MaxEvents, gd.MaxCalls = 60000, 100000
-				b := gram.Build(g, &gram.Hooks{Inside: gd.Inside, Outside: gd.Outside})
+				// every sequence carries the library's list interpreter: the returned trees are evaluated as well (values, and
+				// the errors of trees with value-less nodes - the empty matches of Optional and Empty)
+				b := gram.Build(g, &gram.Hooks{Inside: gd.Inside, Outside: gd.Outside, Interp: interpreter.Array()})
 				o := gram.Run(env, b.NTs[nt], 0)
 				if o.Budget != "" {
 					return "", "", 0, "budget"
@@ -376,7 +379,26 @@ func c12exec(j run.Job, a *run.Acc) {
 				if o.Err != nil {
 					e = fmt.Sprintf("%s @%d", o.Err.Error(), int(o.Err.Pos())-env.Base)
 				}
-				return gram.Render(o.Node, env.Base), e, o.Calls, ""
+				evals := ""
+				for k, alt := range gram.Alternatives(o.Node) {
+					if k == 3 {
+						break
+					}
+					func() {
+						defer func() {
+							if r := recover(); r != nil {
+								evals += fmt.Sprintf(" | panic: %v", r)
+							}
+						}()
+						v, verr := parsley.EvaluateNode(nil, alt)
+						if verr != nil {
+							evals += " | error: " + env.FS.ErrorWithPosition(verr).Error()
+						} else {
+							evals += fmt.Sprintf(" | %v", v)
+						}
+					}()
+				}
+				return gram.Render(o.Node, env.Base) + evals, e, o.Calls, ""
 			}
 			t1, e1, c1, ab1 := one(nil)
 			t2, e2, c2, ab2 := one(lens)
@@ -426,7 +448,7 @@ func init() {
 		Finish: func(tier string, a *run.Acc, cov map[string]any) string {
 			cov["rule"] = "case = one content parsed twice with fresh contexts: alone in its file set (base 1) and preceded by 1-8 random files (lengths 0-59, CR/LF/CRLF inside; added one by one, or handed over as a list that the caller then reuses for a second set or overwrites), one case in 8 beyond an additional file of 64 KiB ... 2^40 bytes (real up to 2 MiB, contentless parsley.File beyond). " +
 				"Workloads: JSON example (valid and corrupted documents, Evaluate), left-recursive arithmetic (values and division-by-zero errors), trimmed token sequences, every literal parser at every offset, " +
-				"random and mutual-left-recursive grammars (curtailment uses Remaining). Compared: tree rendering relative to the base, values, full error texts (file:line:column), context error position relative to the base, " +
+				"random and mutual-left-recursive grammars (curtailment uses Remaining; their trees are evaluated with interpreter.Array, values and evaluation errors included in the comparison). Compared: tree rendering relative to the base, values, full error texts (file:line:column), context error position relative to the base, " +
 				"absolute root positions shifted by exactly the base difference, and CallCount. non-trivial = a comparison that ran to completion on a non-empty content; distinct = (content, placement)"
 			for _, k := range []string{"json: values compared", "json: error texts compared", "arithmetic: values compared", "tokens: trees compared", "literal parser calls compared", "left-recursive grammar results compared"} {
 				if a.Counters[k] == 0 {
